@@ -720,15 +720,22 @@ func (g *gen) genValue(f *File, t *Type, depth int, exclude *Def) *Value {
 			fields = []*Field{fields[g.rng.Intn(len(fields))]}
 		}
 		for _, fl := range fields {
-			if sd.Kind != KUnion && fl.Req != ReqRequired && g.rng.Chance(1, 3) {
+			// A literal that omits a non-optional struct-typed field yields a Go object with a nil
+			// pointer there (the Go backend renders &T{...}, not NewT()): such objects cannot be
+			// written.  Literals always mention those fields.
+			mustHave := sd.Kind != KUnion && fl.Req != ReqOptional && isStructy(fl.Type) && WireCat(fl.Type) == "struct"
+			if sd.Kind != KUnion && fl.Req != ReqRequired && !mustHave && g.rng.Chance(1, 3) {
 				continue
 			}
 			if fl.Type.Resolve().Ref == sd {
+				if mustHave {
+					return nil
+				}
 				continue
 			}
 			fv := g.genValue(f, fl.Type, depth+1, exclude)
 			if fv == nil {
-				if sd.Kind == KUnion {
+				if sd.Kind == KUnion || mustHave {
 					return nil
 				}
 				continue
